@@ -42,8 +42,15 @@ def prepare():
     from superrec2.utils import dynamic_programming as dp
     from superrec2.utils import trees
 
+    from superrec2.render import layout
+    from superrec2.render import model as rmodel
+    from superrec2.utils import tex
+
+    from .peer import PEER
+
+    PEER.install(tex)
     _m.update(
-        model=model, dp=dp, trees=trees, exhaustive=exhaustive,
+        model=model, dp=dp, trees=trees, exhaustive=exhaustive, layout=layout, rmodel=rmodel,
         algos={
             "lca": reconciliation.reconcile_lca,
             "thl": reconciliation.reconcile_thl,
@@ -65,8 +72,15 @@ FAMILIES = ["a", "b", "c", "d"]
 
 @st.composite
 def _shape(draw, leaves, max_arity=2):
-    """Nested list over `leaves` built by successive joins of drawn groups."""
+    """Nested list over `leaves` built by successive joins of drawn groups (one time in four a
+    caterpillar: deep chains are where inheritance / loss chains live)."""
     nodes = list(leaves)
+    if len(nodes) > 3 and max_arity == 2 and draw(st.integers(0, 3)) == 0:
+        order = draw(st.permutations(nodes))
+        tree = order[0]
+        for leaf in order[1:]:
+            tree = [tree, leaf] if draw(st.booleans()) else [leaf, tree]
+        return tree
     while len(nodes) > 1:
         arity = 2
         if max_arity > 2 and len(nodes) > 2 and draw(st.integers(0, 2)) == 0:
@@ -86,6 +100,9 @@ def _size(lo, hi):
 
 @st.composite
 def _costs(draw, labelled, coherent=True):
+    if draw(st.integers(0, 4)) == 0:
+        # the documented default vector: what users run, and rich in ties
+        return {"spe": 0, "dup": 1, "hgt": 1, "floss": 1, "sloss": 1}
     dup = draw(st.integers(0, 3))
     floss = draw(st.integers(0, 3))
     hgt = draw(st.sampled_from([0, 1, 1, 2, 3, "inf", "inf"]))
@@ -100,22 +117,39 @@ def _costs(draw, labelled, coherent=True):
 
 @st.composite
 def _input(draw, labelled, max_obj, max_sp, max_fam, polytomy=False, coherent=True,
-           min_obj=1, single_family=False):
-    nsp = draw(_size(1, max_sp))
-    species = draw(_shape(list(SPECIES[:nsp]), 3 if polytomy else 2))
-    nobj = draw(_size(min_obj, max_obj))
-    leaves = [f"{SPECIES[draw(st.integers(0, nsp - 1))]}_{i}" for i in range(nobj)]
-    obj = draw(_shape(leaves, 3 if polytomy else 2))
+           min_obj=1, single_family=False, chain=False):
+    if chain:
+        # swarm mode "deep chain": a 5-leaf caterpillar over 2-3 species - the shape on which
+        # inheritance chains of the unordered model and path-dependent decoding live
+        nsp = draw(st.integers(2, 3))
+        species = draw(_shape(list(SPECIES[:nsp]), 2))
+        nobj = 5
+        leaves = [f"{SPECIES[draw(st.integers(0, nsp - 1))]}_{i}" for i in range(nobj)]
+        order = draw(st.permutations(leaves))
+        obj = order[0]
+        for leaf in order[1:]:
+            obj = [obj, leaf] if draw(st.booleans()) else [leaf, obj]
+    else:
+        nsp = draw(_size(1, max_sp))
+        species = draw(_shape(list(SPECIES[:nsp]), 3 if polytomy else 2))
+        nobj = draw(_size(min_obj, max_obj))
+        leaves = [f"{SPECIES[draw(st.integers(0, nsp - 1))]}_{i}" for i in range(nobj)]
+        obj = draw(_shape(leaves, 3 if polytomy else 2))
     spec = {
         "species": species,
         "object": obj,
         "named": draw(st.sampled_from([0, 0, 1, 1, 2, 3])),
-        "costs": draw(_costs(labelled, coherent)),
+        "costs": ({"spe": 0, "dup": 1, "hgt": 1, "floss": 1, "sloss": 1}
+                  if chain and draw(st.booleans()) else draw(_costs(labelled, coherent))),
         "syn": None,
         "root_order": None,
     }
+    if draw(st.integers(0, 3)) == 0:
+        # colour annotations on object-tree nodes (by pre-order index of all nodes)
+        spec["colors"] = {str(draw(st.integers(0, 2 * nobj))): draw(st.sampled_from(
+            ["ff0000", "00aa00"])) for _ in range(draw(st.integers(1, 2)))}
     if labelled:
-        nfam = 1 if single_family else draw(st.integers(1, max_fam))
+        nfam = 1 if single_family else draw(st.integers(3 if chain else 1, max_fam))
         fams = FAMILIES[:nfam]
         hidden = draw(st.permutations(fams))
         consistent = draw(st.integers(0, 5)) != 0
@@ -188,14 +222,22 @@ def _case(draw, pid, tier):
         max_obj = 5 if not labelled else (5 if thorough else 4)
         max_sp = 5 if not labelled else 4
         max_fam = 4 if thorough else 3
+        if pid == "C03" or (pid == "C05" and labelled and draw(st.booleans())):
+            # the unordered solvers and their oracle are cheap: go deeper already in quick
+            max_obj, max_fam = 5, 4
+            if pid == "C05":
+                algos = ["superdtl", "base_uspfs"]
     else:
         max_obj, max_sp, max_fam = (9, 7, 4) if not labelled else (6, 5, 3)
     if polytomy:
         max_obj, max_sp, max_fam = 4, 4, 3
     ninputs = 1 if draw(st.integers(0, 3)) else 2
+    chain = (pid == "C03" or (pid == "C05" and algos[0] == "superdtl")) \
+        and draw(st.integers(0, 2)) == 0
     inputs = [
         draw(_input(labelled, max_obj, max_sp, max_fam, polytomy, coherent,
-                    min_obj=2 if pid in ("C08",) else 1, single_family=single_family))
+                    min_obj=2 if pid in ("C08",) else 1, single_family=single_family,
+                    chain=chain))
         for _ in range(ninputs)
     ]
     ops = []
@@ -203,20 +245,28 @@ def _case(draw, pid, tier):
     for _ in range(nops):
         kind = draw(st.sampled_from(
             {
-                "C01": ["solve", "solve", "solve", "gen", "gen", "relabel"],
-                "C02": ["solve", "solve", "solve", "relabel"],
-                "C03": ["solve", "solve", "solve", "relabel"],
-                "C04": ["solve", "solve", "solve", "relabel", "gen"],
-                "C05": ["solve", "solve", "solve", "solve", "relabel"],
+                "C01": ["solve", "solve", "solve", "gen", "gen", "relabel", "recost"],
+                "C02": ["solve", "solve", "solve", "relabel", "recost"],
+                "C03": ["solve", "solve", "solve", "relabel", "recost"],
+                "C04": ["solve", "solve", "solve", "relabel", "gen", "draw", "recost"],
+                "C05": ["solve", "solve", "solve", "solve", "relabel", "draw", "recost"],
                 "C08": ["solve", "solve", "gen", "relabel"],
-                "C09": ["solve", "meta", "meta", "meta", "relabel", "gen"],
-                "C10": ["solve", "solve", "solve", "relabel", "agree"],
+                "C09": ["solve", "solve", "meta", "meta", "meta", "relabel", "gen", "draw",
+                        "recost"],
+                "C10": ["solve", "solve", "solve", "relabel", "agree", "recost"],
             }[pid]
         ))
         if kind == "solve":
             ops.append(_solve_op(draw, algos, ninputs))
         elif kind == "relabel":
             ops.append({"op": "relabel", "input": draw(st.integers(0, ninputs - 1))})
+        elif kind == "draw":
+            ops.append({"op": "draw", "input": draw(st.integers(0, ninputs - 1)),
+                        "pick": draw(st.integers(0, 5))})
+        elif kind == "recost":
+            ops.append({"op": "recost", "input": draw(st.integers(0, ninputs - 1)),
+                        "which": draw(st.integers(0, 4)),
+                        "value": draw(st.sampled_from([0, 1, 2, 3, "inf"]))})
         elif kind == "agree":
             ops.append({"op": "agree", "input": draw(st.integers(0, ninputs - 1)),
                         "order": draw(ORDER)})
@@ -269,6 +319,22 @@ def spec_leaf_species(spec):
     return {leaf: leaf.split("_")[0] for leaf in ref.nested_leaves(spec["object"])}
 
 
+def spec_colors(spec):
+    """{clade: colour} of the object tree from the spec's pre-order indices."""
+    if not spec.get("colors"):
+        return {}
+    clades = []
+
+    def go(x):
+        clades.append(tuple(sorted(ref.nested_leaves(x))))
+        if not isinstance(x, str):
+            for c in x:
+                go(c)
+
+    go(spec["object"])
+    return {clades[int(k) % len(clades)]: v for k, v in spec["colors"].items()}
+
+
 def spec_document(spec):
     """The documented dictionary form of an input spec."""
     model = _m["model"]
@@ -276,7 +342,7 @@ def spec_document(spec):
     onames = canon.internal_names(spec["object"], "O", spec["named"])
     snames = canon.internal_names(spec["species"], "S", spec["named"])
     doc = {
-        "object_tree": ref.to_newick(spec["object"], onames),
+        "object_tree": ref.to_newick(spec["object"], onames, spec_colors(spec)),
         "species_tree": ref.to_newick(spec["species"], snames),
         "leaf_object_species": spec.get("leaf_species") or spec_leaf_species(spec),
         "costs": {
@@ -312,6 +378,7 @@ class Slot:
         self.obj = build_input(spec)
         self.binary = ref.is_binary(spec["object"]) and ref.is_binary(spec["species"])
         self.results = {}  # (algo, policy) -> list of (order, cost, keys)
+        self.last_outs = []
         self._ref = {}
         self.valid_keys = None
 
@@ -422,6 +489,14 @@ def check_outputs(run, slot, algo, policy, outs, where, regime):
                       ("C08",), "C08.names-lost",
                       lambda: f"{where}: {algo} solution renames original nodes: {got_on} vs "
                               f"{onames}; {got_sn} vs {snames}")
+            want_col = spec_colors(spec)
+            got_col = {c: n.color for n, c in oidx.items() if hasattr(n, "color")}
+            run.check(all(got_col.get(c) == v for c, v in want_col.items()), ("C08",),
+                      "C08.colours-lost",
+                      lambda: f"{where}: {algo} solution colours {got_col}, the input had "
+                              f"{want_col}")
+            if want_col:
+                run.probe("coloured_polytomy")
             names_all = [n.name for n in otree.traverse()] + [n.name for n in stree.traverse()]
             run.check(all(names_all) and "NoName" not in names_all, ("C08",),
                       "C08.unnamed-node", lambda: f"{where}: unnamed node in {names_all}")
@@ -603,6 +678,8 @@ def do_solve(run, slots, op, idx, regime):
     if cost == INVALID:
         run.event(idx, "solve", algo, policy, "invalid output")
         return
+    if slot.binary:
+        slot.last_outs = outs[:3]
     record(run, slot, algo, policy if algo != "lca" else "ALL", op["order"], cost, keyset, where)
     run.event(idx, "solve", algo, policy, op["order"], ORACLE.consults, repr(cost),
               sorted(keyset))
@@ -635,6 +712,56 @@ def probe_case(run, slot, algo, outs):
             if not node.is_leaf() and out.node_event(node).name == "HORIZONTAL_TRANSFER":
                 run.probe("transfer_in_optimum")
                 break
+
+
+def do_draw(run, slots, op, idx):
+    """D1: laying out a result writes colour features into the caller's own object tree."""
+    slot = slots[op["input"] % len(slots)]
+    if not slot.last_outs:
+        return
+    out = slot.last_outs[op["pick"] % len(slot.last_outs)]
+    from .peer import PEER
+
+    PEER.configure({"seed": 1 + op["pick"]})
+    before = slot.obj.object_tree.write(format=8, format_root_node=True, features=["color"])
+    try:
+        _m["layout"].compute(out, _m["rmodel"].DrawParams())
+    except Exception as exc:  # noqa: BLE001 - drawing is not what these properties are about
+        run.event(idx, "draw", "raised " + type(exc).__name__)
+        return
+    after = slot.obj.object_tree.write(format=8, format_root_node=True, features=["color"])
+    if before != after:
+        run.probe("draw_added_colour")
+    run.probe("draw_between_solves")
+    run.nontrivial = True
+    run.event(idx, "draw", before != after)
+
+
+def do_recost(run, slots, op, idx):
+    """D1: the caller changes a unit cost IN PLACE on the input object it keeps using (the
+    costs mapping is an ordinary dict of a frozen dataclass; the package's own tests do this).
+    Everything solved afterwards must be optimal for the new costs."""
+    model = _m["model"]
+    slot = slots[op["input"] % len(slots)]
+    which = ["spe", "dup", "hgt", "floss", "sloss"][op["which"] % 5]
+    value = op["value"]
+    if value == "inf" and which != "hgt":
+        return  # only the transfer cost may be infinite
+    new_costs = dict(slot.spec["costs"])
+    new_costs[which] = value
+    if not in_region(new_costs, slot.spec["syn"] is not None) or new_costs == slot.spec["costs"]:
+        return
+    event = {"spe": model.NodeEvent.SPECIATION, "dup": model.NodeEvent.DUPLICATION,
+             "hgt": model.NodeEvent.HORIZONTAL_TRANSFER, "floss": model.EdgeEvent.FULL_LOSS,
+             "sloss": model.EdgeEvent.SEGMENTAL_LOSS}[which]
+    slot.obj.costs[event] = float("inf") if value == "inf" else value
+    slot.spec = dict(slot.spec, costs=new_costs)
+    slot.results = {}   # earlier results belong to the old costs
+    slot._ref = {}
+    slot.last_outs = []
+    run.probe("recost_in_place")
+    run.nontrivial = True
+    run.event(idx, "recost", which, value)
 
 
 def do_relabel(run, slots, op, idx):
@@ -1091,6 +1218,10 @@ def execute(case, focus=None):
             do_solve(run, slots, op, idx, regime)
         elif kind == "relabel":
             do_relabel(run, slots, op, idx)
+        elif kind == "draw":
+            do_draw(run, slots, op, idx)
+        elif kind == "recost":
+            do_recost(run, slots, op, idx)
         elif kind == "gen":
             do_gen(run, slots, op, idx, regime)
         elif kind == "meta":
